@@ -76,7 +76,11 @@ Proof. exact TcInv.unify_same_rep. Qed.
    recursion of those checks is over a finite tree.  (Lists, blobs and enums may still be cyclic: the checks do not
    descend into them.)  Proved here: the one-step statement.  That no sequence of unifications builds a tuple-only
    cycle is the argument above, not a theorem; in the model such a cycle would show as OutOfFuel, which the
-   differential tie never observed (planted kinds cyclic-tuple-...). *)
+   differential tie never observed (planted kinds cyclic-tuple-...).
+   Since /repo 356c2fa the same check guards fn div_res: `/` was the one operator whose constraint solving could GROW a
+   type -- an unknown result of dividing a tuple is made a tuple of fresh unknowns and the check retried, and when that
+   result is a component of the dividend (`a := (u, 1.0); c := a / 2.0; [u, c]`) every retry nested it one level deeper
+   (OutOfFuel in the model, a native stack overflow in the compiler; planted kinds cyclic-tuple-div...). *)
 Theorem C03_occurs_check : forall g sp a b s tys c,
   wf s -> head s a = Some HUnknown -> head s b = Some (HTuple tys) ->
   In c tys -> rep s c = rep s a ->
